@@ -202,7 +202,16 @@ func c10Gen(g *simcore.Tape, thorough bool) *c10Scenario {
 		c.Ciphers = simcore.Pick(g, []string{"default", "cbc-sha", "gcm-chacha", "everything"})
 		switch {
 		case g.Chance(45):
-			m := &c10Mutation{Kind: simcore.Pick(g, []string{"truncate", "flip", "inflate-record", "inflate-both", "tail", "field"})}
+			kinds := []string{"truncate", "flip", "inflate-record", "inflate-both", "tail", "field"}
+			if sc.Tasks {
+				// flip and field can make fabio's parser walk over the random parts of the hello (key
+				// shares, session id) as if they were framing: how many statements it executes then
+				// depends on crypto/rand, which must not reach the schedule. With statement-level tasks
+				// only damage that leaves the framing of the hello intact is used; the parse of one
+				// damaged hello is sequential code and is explored in the other runs.
+				kinds = []string{"truncate", "inflate-record", "inflate-both", "tail"}
+			}
+			m := &c10Mutation{Kind: simcore.Pick(g, kinds)}
 			switch m.Kind {
 			case "truncate":
 				m.At = []int{g.Intn(1 << 16)} // reduced modulo the hello length
@@ -455,6 +464,25 @@ func runC10(r *simcore.Run) {
 	c10Check(r, sc, e)
 }
 
+var errC10Raw = errors.New("upstream: hello of a raw client, handshake not continued")
+
+// c10UpRec records the first bytes an upstream reads from its connection.
+type c10UpRec struct {
+	net.Conn
+	env *c10Env
+	got []byte
+}
+
+func (c *c10UpRec) Read(b []byte) (int, error) {
+	n, err := c.Conn.Read(b)
+	c.env.mu.Lock()
+	if len(c.got) < 1<<15 {
+		c.got = append(c.got, b[:n]...)
+	}
+	c.env.mu.Unlock()
+	return n, err
+}
+
 func (e *c10Env) tlsUpstream(i int, cert tls.Certificate) {
 	ln, err := e.net.Listen(c10UpKey(i), simnet.ListenOpts{})
 	if err != nil {
@@ -470,7 +498,25 @@ func (e *c10Env) tlsUpstream(i int, cert tls.Certificate) {
 		if uc := byConn[chi.Conn]; uc != nil {
 			uc.called, uc.name = true, chi.ServerName
 		}
+		// A hello that comes from a raw (damaged) client is not negotiated any further: whether the
+		// TLS stack accepts a damaged key share depends on its random content (an ML-KEM key with a
+		// flipped byte is valid or not), which would make the length of the reply - and so the
+		// schedule - differ between executions of one seed. The name has been recorded; the
+		// handshake of a damaged hello is not part of any demand.
+		fromRaw := false
+		if rc, ok := chi.Conn.(*c10UpRec); ok {
+			if rec, _, complete := c10FirstRecord(rc.got); complete {
+				for _, cc := range e.conns {
+					if cc.kind == "raw" && len(cc.sent) >= len(rec) && bytes.Equal(cc.sent[:len(rec)], rec) {
+						fromRaw = true
+					}
+				}
+			}
+		}
 		e.mu.Unlock()
+		if fromRaw {
+			return nil, errC10Raw
+		}
 		return nil, nil
 	}
 	go func() {
@@ -480,12 +526,13 @@ func (e *c10Env) tlsUpstream(i int, cert tls.Certificate) {
 				return
 			}
 			uc := &c10UpConn{up: i}
+			rc := &c10UpRec{Conn: raw, env: e}
 			e.mu.Lock()
 			e.ups = append(e.ups, uc)
-			byConn[raw] = uc
+			byConn[rc] = uc
 			e.mu.Unlock()
 			go func() {
-				tc := tls.Server(raw, cfg)
+				tc := tls.Server(rc, cfg)
 				defer tc.Close()
 				if err := tc.Handshake(); err != nil {
 					e.mu.Lock()
